@@ -204,3 +204,21 @@ Proof.
       * injection H as ? ?; subst.
         apply (visit_log off off1 tr1 [] off1); [lia|exact S1|exact L1|lia|right; reflexivity|cbn; lia].
 Qed.
+
+(* ---------- the whole stream ---------- *)
+From LogosV Require Import Engine.SpecProofs Engine.StopProofs Engine.LexProofs.
+
+Lemma att_equiv_refl x : att_equiv x x.
+Proof. destruct x as [[[l e]|] o|r| |]; cbn [att_equiv]; auto. Qed.
+
+(* lexing with the emitted program, under the runtime loop of Lexer::next, yields the regions and the
+   final outcome of the reference semantics of its graph: every input, callback oracle and mode *)
+Theorem emitted_stream U g p act fb (w : list byte) isprefix :
+  prog_ok g p = true -> wf_graph g = true -> bytes_ok w ->
+  lex_all (fun ip s r => fst (attempt_prog U p (PositiveMap.cardinal (g_states g)) ip s r)) act fb w isprefix
+  = lex_all (attempt_ref g) act fb w isprefix.
+Proof.
+  intros Hok Hwf Hw. unfold lex_all. apply lex_from_equiv. intros start.
+  rewrite (attempt_prog_is_ref U g p isprefix start _ Hok Hwf (bytes_ok_skipn' _ w Hw)).
+  apply att_equiv_refl.
+Qed.
